@@ -112,6 +112,12 @@ video_sink_start(struct video_sink_s* self)
            device_state_as_string(storage_get_state(self->storage)));
 
     channel_accept_writes(&self->in, 1);
+    // Register this sink's reader with its channel before any producer can
+    // run. Registration otherwise happens at the sink thread's first read,
+    // and until then the writer sees no reader and may overwrite frames the
+    // sink has not seen yet.
+    channel_read_map(&self->in, &self->reader);
+    channel_read_unmap(&self->in, &self->reader, 0);
     self->is_stopping = 0;
     self->is_running = 1;
     CHECK(
